@@ -15,24 +15,37 @@ def decode(p):
 
 
 def frames_equal(go, model):
-    """F section: the call frames of the program in creation order. Go (hook func.frame, hooks/C05.patch) reports scope
-    name > name of the scope it is linked to [names held when the body starts, sorted]; the model reports the same
-    with the names of the FINAL frame in insertion order: the names at the start must be exactly its first ones
-    (this / super / parameters come first: frame_contents). `F nohook`: the tree has no hook, nothing to compare."""
+    """F section: the call frames of the program. Go (hook func.frame) reports per frame: the kinds of the scopes it
+    is really linked to (b/f/g/r chain) and the names it holds when the body starts (sorted); the model reports its
+    frames with the same link description and the names of the FINAL frame in insertion order. Every frame Go
+    reports must be matched by a DISTINCT model frame with the same link whose first names are exactly those
+    (this / super / parameters come first: frame_contents); order is free (Go reports at link time, the model lists
+    by creation), and the model may list frames Go did not report. `F nohook`: the tree has no hook call site."""
     if go == "F nohook":
         return True
-    gf = [x for x in go[2:].split("|") if x]
-    mf = [x for x in model[2:].split("|") if x]
-    if len(gf) != len(mf):
+    if not go.startswith("F ") or "HOOK-PRESENT-BUT-SILENT" in go:
         return False
-    for g, m in zip(gf, mf):
-        gh, gn = g.split("[", 1)
-        mh, mn = m.split("[", 1)
-        gnames = [x for x in gn.rstrip("]").split(",") if x]
-        mnames = [x for x in mn.rstrip("]").split(",") if x]
-        if gh != mh or sorted(mnames[:len(gnames)]) != sorted(gnames):
-            return False
-    return True
+    def parse(t):
+        out = []
+        for x in t[2:].split("|"):
+            if x:
+                h, n = x.split("[", 1)
+                out.append((h, [y for y in n.rstrip("]").split(",") if y]))
+        return out
+    gf, mf = parse(go), parse(model)
+    if len(gf) > len(mf):
+        return False
+    edges = [[j for j, (mh, mn) in enumerate(mf) if mh == gh and sorted(mn[:len(gn)]) == sorted(gn)] for gh, gn in gf]
+    match = {}
+    def augment(i, seen):
+        for j in edges[i]:
+            if j not in seen:
+                seen.add(j)
+                if j not in match or augment(match[j], seen):
+                    match[j] = i
+                    return True
+        return False
+    return all(augment(i, set()) for i in range(len(gf)))
 
 
 def equal(go, model, attrs):
@@ -51,8 +64,24 @@ def equal(go, model, attrs):
     return True
 
 
+def post(ctx, cases, gores, model):
+    """evidence: how many cases had their call frames compared (hook present) and how many frames; masked sections"""
+    nframes = ncases = masked = 0
+    for i, g in gores.items():
+        secs = g.split(";")
+        if len(secs) > 3 and secs[3].startswith("F ") and secs[3] != "F nohook":
+            ncases += 1
+            nframes += len([x for x in secs[3][2:].split("|") if x])
+        m = model.get(i, ("", {}))[0]
+        if not m.startswith("UNSUP") and "U" in m.split(";"):
+            masked += 1
+    ctx.coverage["frames_compared"] = {"cases": ncases, "frames": nframes}
+    ctx.coverage["cases_with_masked_probe_sections"] = masked
+
+
 SPEC = dict(
     equal=equal,
+    post=post,
     lean_modules=["Ecal.Props.C05"],
     shards=12,
     rule=("cases = programs over the names {a,b,c,f,g,o} + probe expressions evaluated afterwards in the same global scope: "
@@ -66,9 +95,9 @@ SPEC = dict(
           "read | write-then-read; pairs (thorough: triples) of len/add/del/concat operations with aliases; builtin argument checks; "
           "object templates (single / multiple inheritance, init, super); exhaustive outer context {top level, function, method, method inside blocks, init with super, closure of a method} x 11 inner declarations (helper templates / function literals declared, instantiated and called INSIDE the running outer call, parameters named like outer variables, this/super as parameters, recursion) with marks of the OUTER this/super/params/locals afterwards; random programs mixing all of it (2500 quick, 120000 thorough). "
           "Compared section by section (SPEC.equal): outcome (value or error TYPE) of the program, canonical dump of the global scope, ordered "
-          "marker trace, call frames of the program (F; with hooks/C05.patch), then per probe its outcome and trace (U = the model cannot "
-          "give that section), final dump. Previously: outcome of the program and of every probe, dump, "
-          "marker trace; error objects (except ... as e) in a canonical form on both sides (type, data, detail of raise; message / position / "
+          "marker trace, call frames of the program (F; hook func.frame: link structure and names at body start), then per probe its outcome and trace (U = the model cannot "
+          "give that section), final dump; "
+          "error objects (except ... as e) in a canonical form on both sides (type, data, detail of raise; message / position / "
           "source / trace as placeholders). Non-trivial = the trace has at least one entry."),
     exhaustive="scope shape x assignment form x definition place; parameters x argument counts x context; container x key x access form",
     trusted_base=[
@@ -77,10 +106,19 @@ SPEC = dict(
         "buildFrame, appendVals, copyProps, addSuperClasses, newB ...; runFunction_uses_buildFrame / runBuiltin_uses / addSuperClasses_order "
         "are the unfolding equations); fieldKey / listIdx / stepP of the lemma files are tied to them by setValue_path, listIndex_run, "
         "containerWalk_step, containerGet_step; that the evaluator as a whole matches rt_*.go, scope/*.go is established by the differential run",
-        "slice capacity growth (growCap / sizeClasses) follows go1.23 runtime.growslice: add/del aliasing is observable, so the compared "
-        "observable depends on the toolchain",
+        "slice capacity growth (growCap / sizeClasses) follows go1.23 runtime.growslice; since add / del build new lists it only decides "
+        "the capacity of list literals and concat results, which no ECAL program can observe",
     ],
     assumptions=["programs with unbounded recursion are outside (fuel), as the property allows",
+                 "the code the model copies is NOT lexical in three places, each a known finding with kf=/spec= cases: defaults are evaluated "
+                 "in the CALLER's scope (defaults-in-caller-scope: earlier parameters invisible, constructor defaults see nothing; flagged on "
+                 "the whole parameter family, other programs with name-reading defaults follow the code as it is; candidate repair "
+                 "fixes/C05-defaults-in-declaration-scope.patch), block scopes are keyed by node kind + line + pos only "
+                 "(block-scope-shared-by-position: segments of one interpolating literal, separately parsed sources share blocks; "
+                 "block_scope_under_current proves exactly this reuse by name), calls after a call result are dropped and the arguments of a "
+                 "call on a later identifier of the chain are evaluated in the parentless funcresult scope (call-result-not-callable)",
+                 "outside the model, not compared: mutex / sink / import / like nodes, f()[i], error text inside an interpolating literal "
+                 "(whole case), stringified mixed-key maps / functions / non-integral floats, numbers given as strings to add / del",
                  "the model describes add / del AFTER the repairs fixes/C05-add-del-new-list.patch (add and del return new lists) and "
                  "fixes/C05-del-number-key.patch (del(map, k) removes an existing number key): on a tree without them the corpus cases "
                  "`b := add(a,4); c := add(a,5)`, `del(a,0)`, `del({1:x},1)` are reported (unrepaired_add_del_deviate = the witnesses)",
